@@ -199,24 +199,46 @@ pub fn replay(args: &Args, s: &mut Summary) {
 // ---------------------------------------------------------------------------
 // CurveCache (C18)
 
-fn pool(i: i64) -> Vec<PathControlPoint> {
+/// The model's pool is abstract (entry 0 = the empty list, the others = distinct inputs); every case is replayed
+/// under three concretisations so that each segment type, the fallbacks and the early returns sit on shared buffers.
+fn pool(table: usize, i: i64) -> Vec<PathControlPoint> {
     let p = |x: f32, y: f32, t: Option<PathType>| PathControlPoint { pos: Pos::new(x, y), path_type: t };
-    match i {
-        0 => vec![],
-        1 => vec![p(0.0, 0.0, Some(PathType::LINEAR)), p(3.0, 4.0, None)],
-        2 => vec![p(0.0, 0.0, Some(PathType::LINEAR)), p(30.0, 0.0, None), p(30.0, 0.0, Some(PathType::LINEAR)), p(30.0, 40.0, None)],
-        3 => vec![p(0.0, 0.0, Some(PathType::BEZIER)), p(50.0, 80.0, None), p(100.0, 0.0, None), p(150.0, 80.0, None),
-                  p(150.0, 80.0, Some(PathType::CATMULL)), p(200.0, 100.0, None), p(180.0, 30.0, None)],
-        4 => vec![p(7.0, 9.0, None)],
-        6 => vec![p(0.0, 0.0, Some(PathType::BEZIER)), p(60.0, 90.0, None), p(120.0, 0.0, None)],
-        _ => vec![p(0.0, 0.0, Some(PathType::PERFECT_CURVE)), p(40.0, 40.0, None), p(80.0, 0.0, None)],
+    let deg = |d: i32| Some(PathType::new_b_spline(std::num::NonZeroI32::new(d).unwrap()));
+    match (table, i) {
+        (_, 0) => vec![],
+        (0, 1) => vec![p(0.0, 0.0, Some(PathType::LINEAR)), p(3.0, 4.0, None)],
+        (0, 2) => vec![p(0.0, 0.0, Some(PathType::LINEAR)), p(30.0, 0.0, None), p(30.0, 0.0, Some(PathType::LINEAR)), p(30.0, 40.0, None)],
+        (0, 3) => vec![p(0.0, 0.0, Some(PathType::BEZIER)), p(50.0, 80.0, None), p(100.0, 0.0, None), p(150.0, 80.0, None),
+                       p(150.0, 80.0, Some(PathType::CATMULL)), p(200.0, 100.0, None), p(180.0, 30.0, None)],
+        (0, 4) => vec![p(7.0, 9.0, None)],
+        (0, 6) => vec![p(0.0, 0.0, Some(PathType::BEZIER)), p(60.0, 90.0, None), p(120.0, 0.0, None)],
+        (0, _) => vec![p(0.0, 0.0, Some(PathType::PERFECT_CURVE)), p(40.0, 40.0, None), p(80.0, 0.0, None)],
+        // Catmull, a long bezier, a b-spline with a degree, a perfect curve that falls back to bezier (collinear)
+        (1, 1) => vec![p(0.0, 0.0, Some(PathType::CATMULL)), p(40.0, 30.0, None), p(0.0, 60.0, None), p(40.0, 90.0, None), p(0.0, 120.0, None)],
+        (1, 2) => (0..14).map(|k| p(20.0 * k as f32, if k % 2 == 0 { 0.0 } else { 70.0 + k as f32 }, if k == 0 { Some(PathType::BEZIER) } else { None })).collect(),
+        (1, 3) => (0..9).map(|k| p(25.0 * k as f32, ((k * k) % 7) as f32 * 13.0, if k == 0 { deg(3) } else { None })).collect(),
+        (1, 4) => vec![p(1.0, 1.0, Some(PathType::CATMULL))],
+        (1, 6) => vec![p(0.0, 0.0, Some(PathType::PERFECT_CURVE)), p(10.0, 10.0, None), p(30.0, 30.0, None)],
+        (1, _) => vec![p(0.0, 0.0, Some(PathType::BEZIER)), p(10.0, 50.0, None), p(90.0, 50.0, None), p(100.0, 0.0, None)],
+        // a huge arc (> 1000 sub-points: falls back), Catmull after linear, duplicated end, a short then a long bezier
+        (_, 1) => vec![p(0.0, 0.0, Some(PathType::PERFECT_CURVE)), p(30000.0, 30000.0, None), p(60000.0, 100.0, None)],
+        (_, 2) => vec![p(5.0, 5.0, Some(PathType::LINEAR)), p(50.0, 5.0, None), p(50.0, 5.0, Some(PathType::CATMULL)), p(80.0, 60.0, None),
+                       p(20.0, 90.0, None), p(70.0, 140.0, None)],
+        (_, 3) => vec![p(0.0, 0.0, Some(PathType::LINEAR)), p(40.0, 0.0, None), p(40.0, 0.0, None)],
+        (_, 4) => vec![p(-3.0, 2.0, Some(PathType::PERFECT_CURVE))],
+        (_, 6) => (0..25).map(|k| p(7.0 * k as f32, ((k * 37) % 11) as f32 * 9.0, if k == 0 { Some(PathType::BEZIER) } else { None })).collect(),
+        (_, _) => vec![p(0.0, 0.0, Some(PathType::BEZIER)), p(30.0, 40.0, None)],
     }
 }
-fn len_choice(l: i64) -> Option<f64> {
-    match l {
-        0 => None,
-        1 => Some(25.0),
-        _ => Some(500.0),
+fn len_choice(table: usize, l: i64) -> Option<f64> {
+    match (table, l) {
+        (_, 0) => None,
+        (0, 1) => Some(25.0),
+        (0, _) => Some(500.0),
+        (1, 1) => Some(-1.0),       // the early return for a non-positive length
+        (1, _) => Some(0.001),
+        (_, 1) => Some(100_000.0),
+        (_, _) => Some(61.5),
     }
 }
 
@@ -225,10 +247,13 @@ pub fn cache_replay(args: &Args, s: &mut Summary) {
     args.for_each_case(|_, c| {
         s.cases += 1;
         n += 1;
-        let mode = MODES[n % 4];
         let ops = geta(&c, "ops");
         s.nontrivial_key(&c["ops"].to_string());
-        let label = format!("cache replay {}", c["ops"]);
+        for tb in 0..3usize {
+        let mode = MODES[(n + tb) % 4];
+        let pool = |i: i64| pool(tb, i);
+        let len_choice = |l: i64| len_choice(tb, l);
+        let label = format!("cache replay table {tb} {}", c["ops"]);
         let r = guarded(&label, || {
             let mut bufs = CurveBuffers::default();
             let mut sp = SliderPath::new(mode, pool(1), len_choice(0));
@@ -278,8 +303,9 @@ pub fn cache_replay(args: &Args, s: &mut Summary) {
         match r {
             Err(p) => s.mismatch("panic", json!({"ops": c["ops"], "panic": p})),
             Ok(Some((k, o))) => s.mismatch(&format!("impure:{}", o.get("op").and_then(|x| x.as_str()).unwrap_or("?")),
-                                           json!({"ops": c["ops"], "failed_at": k, "op": o, "mode": format!("{mode:?}")})),
+                                           json!({"ops": c["ops"], "failed_at": k, "op": o, "mode": format!("{mode:?}"), "table": tb})),
             Ok(None) => s.sample(json!({"ops": ops.iter().map(|o| format!("{}({},{})", gets(o, "op"), geti(o, "i"), geti(o, "l"))).collect::<Vec<_>>()})),
+        }
         }
     });
 }
@@ -507,5 +533,146 @@ pub fn show(args: &Args, _s: &mut Summary) {
         let n = c.path().len();
         eprintln!("{mode:?}: {} points, dist {}, first points {:?} last {:?}, lens first {:?} last {:?}", n, c.dist(), &c.path()[..n.min(4)],
                   c.path().last(), &c.lengths()[..c.lengths().len().min(4)], c.lengths().last());
+    }
+}
+
+// ---------------------------------------------------------------------------
+// C19 on REAL curves with many points: the statement's relations and CurveLength!PosSeg (first index
+// whose cumulative length reaches d, by linear scan) for dense and random progress values.
+
+fn pos_ref(path: &[Pos], lens: &[f64], progress: f64) -> (f64, Option<Pos>) {
+    let dist = lens.last().copied().unwrap_or(0.0);
+    let d = progress.clamp(0.0, 1.0) * dist;
+    if path.is_empty() {
+        return (d, Some(Pos::default()));
+    }
+    let i = match lens.iter().position(|l| *l >= d) {
+        Some(i) => i,
+        None => return (d, None), // d beyond every length (non-monotone rounding): no prediction
+    };
+    if i == 0 {
+        return (d, Some(path[0]));
+    }
+    if i >= path.len() {
+        return (d, Some(path[path.len() - 1]));
+    }
+    let (d0, d1) = (lens[i - 1], lens[i]);
+    if (d0 - d1).abs() <= f64::EPSILON {
+        return (d, Some(path[i - 1]));
+    }
+    let w = (d - d0) / (d1 - d0);
+    (d, Some(path[i - 1] + (path[i] - path[i - 1]) * w as f32))
+}
+
+pub fn posrel(args: &Args, s: &mut Summary) {
+    let iters = args.opt_usize("iters", 5000);
+    let mut rng = Rng::new(args.seed ^ 0x19);
+    for it in 0..iters {
+        let cps = gen_cps(&mut rng);
+        let mode = MODES[rng.below(4)];
+        let expected = match rng.below(4) {
+            0 => None,
+            1 => Some(1.0 + rng.below(400) as f64 * 0.75),
+            2 => Some(2000.0),
+            _ => Some(0.001),
+        };
+        let mut ps: Vec<f64> = vec![-1.0, -0.0, 0.0, f64::MIN_POSITIVE, 5e-324, 1e-300, 0.5, 1.0 - f64::EPSILON, 1.0, 1.0 + 1e-12, 2.5,
+                                    f64::INFINITY, f64::NEG_INFINITY];
+        for _ in 0..24 {
+            ps.push(rng.below(1_000_001) as f64 / 1_000_000.0);
+        }
+        for k in 0..=16 {
+            ps.push(k as f64 / 16.0);
+        }
+        let label = format!("curve posrel {:?} {:?} {:?}", cps, expected, mode);
+        let r = guarded(&label, || {
+            let mut errs: Vec<String> = vec![];
+            let mut bufs = CurveBuffers::default();
+            let curve = Curve::new(mode, &cps, expected, &mut bufs);
+            let (path, lens) = (curve.path(), curve.lengths());
+            if path.is_empty() || lens.iter().any(|l| !l.is_finite()) {
+                return (errs, 0);
+            }
+            let dist = curve.dist();
+            let b = curve.as_borrowed_curve();
+            let big = path.iter().fold(0f32, |m, p| m.max(p.x.abs()).max(p.y.abs())) as f64;
+            let t = 2.0 * tol(big) + 1e-6 * dist;
+            // exact vertex fractions
+            let mut all = ps.clone();
+            if dist > 0.0 {
+                for l in lens.iter().step_by(1 + lens.len() / 40) {
+                    all.push(l / dist);
+                }
+            }
+            let mut seen: Vec<(f64, Pos)> = vec![];
+            for &p in &all {
+                let pos = curve.position_at(p);
+                let d = curve.progress_to_dist(p);
+                if d != p.clamp(0.0, 1.0) * dist {
+                    errs.push(format!("progress_to_dist({p}) = {d}, total distance {dist}"));
+                }
+                // (within f32 resolution: the osu! Catmull compensation term can be a rounding-size negative number,
+                // which puts the second cumulative length a hair below 0)
+                if p <= 0.0 && ((pos.x - path[0].x).abs() as f64 > t || (pos.y - path[0].y).abs() as f64 > t) {
+                    errs.push(format!("position_at({p}) = ({}, {}) is not the first point", pos.x, pos.y));
+                }
+                let last = path[path.len() - 1];
+                if p >= 1.0 && ((pos.x - last.x).abs() as f64 > t || (pos.y - last.y).abs() as f64 > t) {
+                    errs.push(format!("position_at({p}) = ({}, {}) is not the last point ({}, {})", pos.x, pos.y, last.x, last.y));
+                }
+                if !pos.x.is_finite() || !pos.y.is_finite() {
+                    errs.push(format!("position_at({p}) is not finite"));
+                }
+                if let (_, Some(want)) = pos_ref(path, lens, p) {
+                    if ((pos.x - want.x).abs() as f64) > t || ((pos.y - want.y).abs() as f64) > t {
+                        errs.push(format!("position_at({p}) = ({}, {}), the first index reaching d={d} gives ({}, {})", pos.x, pos.y, want.x, want.y));
+                    }
+                }
+                let i = curve.idx_of_dist(d);
+                if curve.interpolate_vertices(i, d) != pos || b.position_at(p) != pos || b.progress_to_dist(p) != d || b.idx_of_dist(d) != i
+                    || b.interpolate_vertices(i, d) != pos {
+                    errs.push(format!("accessors disagree at progress {p}"));
+                }
+                seen.push((d, pos));
+                if errs.len() > 3 {
+                    break;
+                }
+            }
+            // never farther apart than the arc length between them
+            seen.sort_by(|a, b| a.0.total_cmp(&b.0));
+            for w in seen.windows(2) {
+                let moved = (((w[1].1.x - w[0].1.x) as f64).powi(2) + ((w[1].1.y - w[0].1.y) as f64).powi(2)).sqrt();
+                if moved > (w[1].0 - w[0].0).abs() + 2.0 * t {
+                    errs.push(format!("moved {moved} between distances {} and {}", w[0].0, w[1].0));
+                    break;
+                }
+            }
+            // at each vertex's cumulative length the position is that vertex
+            if dist > 0.0 {
+                for (i, l) in lens.iter().enumerate().take(path.len()) {
+                    let pos = curve.position_at(l / dist);
+                    if ((pos.x - path[i].x) as f64).abs() > t || ((pos.y - path[i].y) as f64).abs() > t {
+                        errs.push(format!("position at lengths[{i}]/dist is ({}, {}), the vertex is ({}, {})", pos.x, pos.y, path[i].x, path[i].y));
+                        break;
+                    }
+                }
+            }
+            (errs, path.len())
+        });
+        s.cases += 1;
+        s.checks += 60;
+        match r {
+            Err(p) => s.mismatch("panic", json!({"cps": format!("{cps:?}"), "panic": p})),
+            Ok((errs, _)) if !errs.is_empty() => s.mismatch("curve-position:real", json!({"cps": format!("{cps:?}"), "L": expected, "mode": format!("{mode:?}"),
+                                                                                          "errors": errs.iter().take(4).collect::<Vec<_>>()})),
+            Ok((_, n)) => {
+                if n >= 8 {
+                    s.nontrivial_key(&format!("{it}"));
+                }
+                if it < 2 {
+                    s.sample(json!({"cps": format!("{cps:?}"), "points": n}));
+                }
+            }
+        }
     }
 }
